@@ -25,6 +25,7 @@ type mTask struct {
 	Env    string // "" or literal value for EV
 	Dyn    string // "" or sh text of task var DYN
 	DynEnv string // "" or sh text of env var DE
+	Defer  bool   // the task has a deferred command that prints V
 	Loop   string // "", "matrix-ref", "list"
 	Deps   []mCall
 	Calls  []mCall
@@ -46,7 +47,7 @@ type mProg struct {
 	Conc       int
 }
 
-var mShPool = []string{"pwd", "echo $EV", "echo const", "echo {{.V}}", "echo $PWD-$EV"}
+var mShPool = []string{"pwd", "echo $EV", "echo const", "echo {{.V}}", "echo $PWD-$EV", `eval "echo \$E""V"`}
 
 func genM(ch *vs.Choices, tier string) *mProg {
 	p := &mProg{}
@@ -68,6 +69,7 @@ func genM(ch *vs.Choices, tier string) *mProg {
 		if ch.Bool(1, 4) {
 			t.DynEnv = mShPool[ch.Draw(3)]
 		}
+		t.Defer = ch.Bool(1, 3)
 		switch ch.Draw(4) {
 		case 0:
 			t.Loop = "matrix-ref"
@@ -137,6 +139,9 @@ func (p *mProg) YAML() string {
 			wr("d", t.Deps)
 		}
 		sb.WriteString("    cmds:\n")
+		if t.Defer {
+			fmt.Fprintf(&sb, "      - defer: %s\n", yq(`echo "O|{{.ID}}|`+t.Name+`|deferred V={{.V}} L={{.L}}"`))
+		}
 		fmt.Fprintf(&sb, "      - cmd: %s\n", yq(`echo "O|{{.ID}}|`+t.Name+`|V={{.V}}|GD={{.GD}}|DYN={{.DYN}}|EV=$EV|DE=$DE|PWD=$(pwd)|TASK={{.TASK}}"`))
 		switch t.Loop {
 		case "matrix-ref":
